@@ -179,8 +179,8 @@ def keyed_fold_harness(w, iters, max_len, kinds='ITW', hash_order='any'):
 
 
 def keyed_fold_tasks(tier, role):
-    it, ln = (2, 3) if tier == 'quick' else (2, 4)
-    return [Task('keyed_fold_i%d_l%d' % (it, ln), 'keyed_fold_harness', {'iters': it, 'max_len': ln},
+    it, ln = (2, 3) if tier == 'quick' else (2, [4, 2])
+    return [Task('keyed_fold_i%d_l%s' % (it, str(ln).replace(' ', '').replace('[', '').replace(']', '').replace(',', '-')), 'keyed_fold_harness', {'iters': it, 'max_len': ln},
                  bounds='KeyedFold::next driven to Terminate; upstream: %d iterations x <=%d elements '
                         '(Item/Timestamped/Watermark), keys and values u8 symbolic (every equality pattern), '
                         'HashMap drain in every order; user fold uninterpreted' % (it, ln),
@@ -519,7 +519,7 @@ def window_op_tasks(tier, role, kinds=('count', 'event_time')):
         cfgs += [('count', {'size': 2, 'slide': 1, 'exact': True}), ('count', {'size': 3, 'slide': 2, 'exact': False})]
     if 'event_time' in kinds:
         cfgs += [('event_time', {'size': 2, 'slide': 2}), ('event_time', {'size': 3, 'slide': 2})]
-    ln = [3, 1] if tier == 'quick' else [4, 2]
+    ln = [3, 1] if tier == 'quick' else [3, 2]
     for kind, p in cfgs:
         nm = 'winop_%s_%s' % (kind, '_'.join('%s%s' % (k[0], v) for k, v in sorted(p.items())))
         ts.append(Task(nm, 'window_op_harness', {'kind': kind, 'p': p, 'iters': 2, 'max_len': ln},
